@@ -84,6 +84,18 @@ class Register:
             ):
                 if alias_slice.stop > alias_from.size:
                     raise JaqalError("Index out of range.")
+                # Every element of the slice must be a qubit of the source.
+                # (Jaqal slices do not count negative values from the end.)
+                start = alias_slice.start or 0
+                step = 1 if alias_slice.step is None else alias_slice.step
+                if all(isinstance(v, int) for v in (start, alias_slice.stop, step)):
+                    if step == 0:
+                        raise JaqalError("Slice step cannot be zero.")
+                    elements = range(start, alias_slice.stop, step)
+                    if len(elements) > 0 and (
+                        min(elements) < 0 or max(elements) >= alias_from.size
+                    ):
+                        raise JaqalError("Index out of range.")
 
     def __hash__(self):
         return hash((self.__class__, self._name, self._size))
